@@ -207,12 +207,22 @@ def plan(tier, prop):
                 items.append({"op": "holdout_plate", "params": {"fraction": f}, "layout": lay, "n_obs": 2, "pool": "mixed", "lookalike": True})
             items.append({"op": "permutation", "params": {"force": None}, "layout": lay, "n_obs": 0, "pool": "mixed", "lookalike": True})
             items.append({"op": "merge_min", "params": {"min_size": 2}, "layout": lay, "n_obs": 0, "pool": "mixed", "lookalike": True})
+    # screens whose observation mask is an integer array
+    for lay in lay_gen:
+        if sum(sum(t) for t in lay) <= 3:
+            for dt in ("int64", "uint8"):
+                for kind, params in (("segregate", {"max_plate_size": 2}), ("pairwise", {"subset_size": 1, "anchor_size": 0}), ("merge_min", {"min_size": 2}),
+                                     ("merge_top_bottom", {"n_iterations": 1}), ("fixed", {"plate_size": 1}), ("n_per_sample", {"min_n_cell_line_plates": 1})):
+                    items.append({"op": kind, "params": params, "layout": lay, "n_obs": 2, "pool": "mixed", "mask_dtype": dt})
+                items.append({"op": "holdout_plate", "params": {"fraction": 0.5}, "layout": lay, "n_obs": 2, "pool": "mixed", "mask_dtype": dt})
     # the hold-out through the command line (fraction parsing / defaults are part of what the user gets)
     if prop == "C11":
         for lay in lay_gen:
             if 2 <= sum(sum(t) for t in lay) <= 4 and sum(len(t) for t in lay) >= 2:
                 for f in FRACTIONS:
                     items.append({"op": "cli_holdout", "params": {"fraction": f}, "layout": lay, "n_obs": 0, "pool": "combo", "bound": 2})
+                for stale in ("test", "train"):
+                    items.append({"op": "cli_holdout", "params": {"fraction": 0.5, "stale": stale}, "layout": lay, "n_obs": 0, "pool": "combo", "bound": 1})
     # operation objects that were already used once (state kept on the object between calls)
     reuse = []
     for it in items:
@@ -256,7 +266,11 @@ def execute(item, chooser):
     Returns (input_screen, outputs or None, exception or None)."""
     kind = item["op"]
     rows = build_rows(item["layout"], item["n_obs"], item["pool"], all_observed=(kind == "sparse_cover"), mix=item.get("mix"), lookalike=bool(item.get("lookalike")))
-    screen = make_screen(rows, control=CTL)
+    kw = {}
+    if item.get("mask_dtype"):
+        # the observation mask given as 0/1 integers (a pandas column, an HDF5 uint8 dataset) instead of booleans
+        kw["observation_mask"] = np.array([1 if r[4] else 0 for r in rows], dtype=item["mask_dtype"])
+    screen = make_screen(rows, control=CTL, **kw)
     before = rows_of(screen)
     rng = ScriptedGenerator(chooser)
     try:
@@ -282,7 +296,7 @@ def execute(item, chooser):
         elif kind == "combo_filter":
             out = filter_dataset_to_treatments_that_appear_in_at_least_one_combo(screen)
         elif kind == "cli_holdout":
-            out = _cli_holdout(screen, item["params"]["fraction"], rng)
+            out = _cli_holdout(screen, item["params"]["fraction"], rng, stale=item["params"].get("stale"))
         else:
             raise KeyError(kind)
     except Exception as exc:  # noqa: BLE001  (refusal: "whenever it returns")
@@ -290,7 +304,7 @@ def execute(item, chooser):
     return before, out, None
 
 
-def _cli_holdout(screen, fraction, rng):
+def _cli_holdout(screen, fraction, rng, stale=None):
     """The hold-out as a user reaches it: prepare_retrospective_simulation --holdout-fraction f (no generator, no smoother:
     mask everything, reveal one plate, split), every random answer scripted."""
     import shutil
@@ -305,6 +319,13 @@ def _cli_holdout(screen, fraction, rng):
     try:
         a, tr, te = (os.path.join(tmp, x) for x in ("in.h5", "train.h5", "test.h5"))
         screen.save_h5(a)
+        if stale is not None:
+            # one of the two output paths already holds a file of an EARLIER preparation (other fraction, default answers)
+            prep.get_prng_from_seed_argument = lambda args: ScriptedGenerator(Chooser())
+            o_tr, o_te = os.path.join(tmp, "old_train.h5"), os.path.join(tmp, "old_test.h5")
+            run_cli("prepare_retrospective_simulation", ["--data", a, "--training-output", o_tr, "--test-output", o_te, "--holdout-fraction", repr(1.0 - float(fraction) if fraction not in (0.5,) else 1.0), "--seed", 1])
+            os.replace(o_te if stale == "test" else o_tr, te if stale == "test" else tr)
+            prep.get_prng_from_seed_argument = lambda args: rng
         run_cli("prepare_retrospective_simulation", ["--data", a, "--training-output", tr, "--test-output", te, "--holdout-fraction", repr(float(fraction)), "--seed", 0])
         return Screen.load_h5(tr), Screen.load_h5(te)
     finally:
